@@ -8,6 +8,10 @@ use crate::{
     },
 };
 
+#[cfg(all(pendulum_project_ntpd_rs_verif, feature = "std"))]
+#[path = "/verif/hooks/statime_algo/estimator_probe.rs"]
+mod verif_probe;
+
 #[cfg(not(feature = "std"))]
 use crate::float_polyfill::FloatPolyfill;
 
